@@ -46,7 +46,7 @@ class Typer:
 
     # -- annotations ------------------------------------------------------------
     def ann(self, m: ModuleInfo, a: Optional[ast.AST], cls: Optional[ClassInfo] = None, depth: int = 0) -> Optional[Ty]:
-        if a is None or depth > 6:
+        if a is None or depth > 30:
             return None
         if isinstance(a, ast.Constant):
             if a.value is None:
@@ -57,6 +57,14 @@ class Typer:
                 except SyntaxError:
                     return None
             return None
+        if isinstance(a, ast.Tuple):
+            out = Ty()
+            for e in a.elts:
+                t = self.ann(m, e, cls, depth + 1)
+                if t is None:
+                    return None
+                out = out | t
+            return out
         if isinstance(a, ast.BinOp) and isinstance(a.op, ast.BitOr):
             l, r = self.ann(m, a.left, cls, depth + 1), self.ann(m, a.right, cls, depth + 1)
             if l is None or r is None:
